@@ -3,6 +3,6 @@ RUNNERS = {
     'C10': run_graph.run,
     'C11': run_graph.run,
 }
-for p in ('C01', 'C02', 'C03', 'C04', 'C05', 'C06', 'C07', 'C08', 'C09', 'C16', 'C18', 'C19', 'C20'):
+for p in ('C01', 'C02', 'C03', 'C04', 'C05', 'C06', 'C07', 'C08', 'C09', 'C16', 'C17', 'C18', 'C19', 'C20'):
     RUNNERS[p] = run_pie.run
-HARNESS_BINS = ['graph_ops', 'pie_hist']
+HARNESS_BINS = ['graph_ops', 'pie_hist', 'misc_probe']
